@@ -210,6 +210,7 @@ pub struct Checked {
     pub samples: u64,
     pub ran: bool,
     pub wasm_judged: bool,
+    pub faults_injected: u64,
 }
 
 /// tasks scheduled while a tick is running (from dsp, from a task, a chain)
@@ -229,7 +230,7 @@ thread_local! {
 }
 
 pub fn check(c: &Case) -> Checked {
-    let mut res = Checked { violations: vec![], tasks_executed: 0, samples: 0, ran: false, wasm_judged: false };
+    let mut res = Checked { violations: vec![], tasks_executed: 0, samples: 0, ran: false, wasm_judged: false, faults_injected: 0 };
     let src = source(c);
     let (want, executed) = model(c);
     res.tasks_executed = executed;
@@ -267,6 +268,54 @@ pub fn check(c: &Case) -> Checked {
             }
             Err(RunError::Build(e)) => res.violations.push((format!("build/{}: {}", b.name(), super::progcase::norm(&e.short())), e.short())),
             Err(RunError::DspPanic(t, p)) => res.violations.push((format!("{}/dsp/{}", p.sig(), b.name()), format!("sample {t}: {} @ {}", p.msg, p.loc))),
+        }
+    }
+    // Fault injection (hook H12): one execution of a task fails on the WASM runtime (the call of
+    // `_mimium_exec_closure_void` returns an error without running). Every *other* task must still run
+    // exactly once at its sample: per accumulator the run may differ from the model by the weight of
+    // exactly one task, missing from the sample that task was due at until the end.
+    let one_shots_only = c.tasks.iter().all(|t| matches!(t, Task::Global { .. } | Task::FromDsp { .. }));
+    if one_shots_only && executed >= 2 && res.wasm_judged && res.violations.is_empty() {
+        let k = 1 + (c.n as u64 * 31 + c.tasks.len() as u64 * 7 + executed) % executed;
+        mimium_lang::verif::failpoint_arm("_mimium_exec_closure_void", k);
+        let r = run_program(Backend::Wasm, &src, true, c.n, &|_, _| 0.0, false, None);
+        let seen = mimium_lang::verif::failpoint_disarm();
+        res.faults_injected = (seen >= k) as u64;
+        if let Ok(r) = r
+            && r.out.len() == want.len()
+            && seen >= k
+        {
+            let na = naccs(c);
+            // due sample and weight of every task
+            let mut due: Vec<(usize, usize, f64)> = vec![]; // (sample, accumulator, weight)
+            for t in &c.tasks {
+                match t {
+                    Task::Global { t, j } => due.push((*t as usize, j / 50, (2.0f64).powi((j % 50) as i32))),
+                    Task::FromDsp { s, d, j } => due.push(((*s as f64 + d) as usize, j / 50, (2.0f64).powi((j % 50) as i32))),
+                    _ => {}
+                }
+            }
+            let last = c.n - 1;
+            let missing: Vec<(usize, f64)> = (0..na).map(|a| (a, want[last * ch + a] - r.out[last * ch + a])).filter(|(_, d)| *d != 0.0).collect();
+            let verdict = match missing.as_slice() {
+                [(a, w)] => match due.iter().find(|(_, da, dw)| da == a && dw == w) {
+                    Some((s0, _, _)) => {
+                        // the same weight is missing from s0 on and nothing else differs anywhere
+                        (0..c.n).find_map(|s| {
+                            (0..ch).find_map(|kk| {
+                                let exp = want[s * ch + kk] - if kk == *a && s >= *s0 { *w } else { 0.0 };
+                                (!bits_eq(exp, r.out[s * ch + kk])).then(|| format!("sample {s} accumulator {kk}: runtime {} expected {exp} (task of weight {w} due at {s0} failed by injection)", r.out[s * ch + kk]))
+                            })
+                        })
+                    }
+                    None => Some(format!("accumulator {a} lacks {w} at the end, which is not the weight of one task")),
+                },
+                [] => Some("the injected fault left no trace: the failed task ran all the same".to_string()),
+                more => Some(format!("one task execution failed by injection, but {} accumulators differ at the end: {more:?}", more.len())),
+            };
+            if let Some(d) = verdict {
+                res.violations.push(("other-tasks-affected-by-a-failing-task/wasm".into(), format!("fault injected into execution #{k} of {executed}: {d}")));
+            }
         }
     }
     res
@@ -345,6 +394,7 @@ fn exec(c: &Case, idx: usize, out: &mut Out) -> bool {
             1,
         );
     }
+    out.count("faults_injected_into_one_task_execution/wasm", r.faults_injected);
     for (sig, detail) in &r.violations {
         let key = format!("violations:{sig}");
         let seen = out.counters.get(&key).copied().unwrap_or(0);
